@@ -48,6 +48,15 @@ INFO = {
              "stdout+stderr+timestamps, and that every returned line carries exactly the label set of its container of origin.",
         note="Trusts the fake Docker API client and TLC; regex semantics limited to the algebra in Regex.tla; sanitised-name collisions left open.",
         ref="6/C02"),
+    "C14": dict(
+        text="TLC explores the reader life cycle of one query (list, concurrent opens in every completion order, Wait, deferred "
+             "cleanup, iteration, error check, Close / closeOnError) for log, metric and binary-operation shapes with every single "
+             "fault, checking NoLeak, Surfaces and close-after-open on the design; every fault is replayed in each concrete byte-level "
+             "realisation and every completion order on Engine.Eval over a fake Docker client that records each open, fault delivery "
+             "and Close under its mutex, and TLC validates the recorded trace: at Return all opened readers are closed, error-kind "
+             "faults produced an error, an ok log result is complete.",
+        note="Trusts the fake Docker client's event order (taken under its mutex) and TLC; single-fault scenarios; limit -1.",
+        ref="6/C14"),
 }
 
 NOT_YET = "no check registered yet in this revision (machinery under construction; see DESIGN.md section 6 for the planned model)"
